@@ -14,22 +14,51 @@ def showOut (o : List (Option Int)) : String :=
 
 /-! ### the callers (grammar: harness/cmd/hv/c16callers.go) -/
 
-def parseGwRef (s : String) : Option GwRef :=
+/-- listed ready endpoints of a backendRef: `<n>` = the distinct addresses 1..n | `@a.a/a.a` = address ids
+as listed, `/` separates the EndpointSlices / subsets (the listing is their concatenation; an id may
+repeat).  Prefix `^`: the Endpoints object carries the ip-override annotation: every address resolves to
+id 250 (`createEndpoints`); the EndpointSlice reader ignores the annotation. -/
+def parseGwAddrs (slices : Bool) (s : String) : Option (List Nat) :=
+  let ovr := s.startsWith "^"
+  let s := if ovr then (s.drop 1).toString else s
+  let listed : Option (List Nat) :=
+    if s.startsWith "@" then
+      ((s.drop 1).toString.splitOn "/").foldlM (fun acc sl =>
+        if sl = "" then some acc else ((sl.splitOn ".").mapM String.toNat?).map (acc ++ ·)) []
+    else s.toNat?.map gwDistinct
+  listed.map fun l => if ovr ∧ !slices then l.map fun _ => 250 else l
+
+def parseGwRef (slices : Bool) (s : String) : Option GwRef :=
   let pw := fun (w : String) => if w = "-" then some none else w.toInt?.map some
   match s.splitOn ":" with
-  | [w, n] => do pure ⟨← pw w, ← n.toNat?, false⟩
-  | [w, n, sk] => if sk ∈ ["p", "s", "q", "e"] then do pure ⟨← pw w, ← n.toNat?, true⟩ else none
+  | [w, n] => do pure ⟨← pw w, ← parseGwAddrs slices n, false⟩
+  | [w, n, sk] => if sk ∈ ["p", "s", "q", "e"] then do pure ⟨← pw w, ← parseGwAddrs slices n, true⟩ else none
   | _ => none
 
-/-- `none` | per ref `-` or `w.w.w`, comma separated -/
-def parseGwOut (s : String) : Option (Option (List (List Int))) :=
-  if s = "none" then some none else
-  ((s.splitOn ",").mapM fun it => if it = "-" then some [] else (it.splitOn ".").mapM String.toInt?).map some
+def srvLe (a b : Nat × Int) : Bool := a.1 < b.1 || (a.1 == b.1 && a.2 ≤ b.2)
 
-def showGwOut : Option (List (List Int)) → String
+def srvInsert (x : Nat × Int) : List (Nat × Int) → List (Nat × Int)
+  | [] => [x]
+  | y :: ys => if srvLe x y then x :: y :: ys else y :: srvInsert x ys
+
+/-- canonical order of the servers of one ref: by address id, then weight -/
+def srvSort (l : List (Nat × Int)) : List (Nat × Int) := l.foldr srvInsert []
+
+def parseSrv (s : String) : Option (Nat × Int) :=
+  match s.splitOn "=" with
+  | [a, w] => do pure (← a.toNat?, ← w.toInt?)
+  | _ => none
+
+/-- `none` | per ref `-` or `a=w.a=w` (address id = weight), comma separated -/
+def parseGwOut (s : String) : Option (Option (List (List (Nat × Int)))) :=
+  if s = "none" then some none else
+  ((s.splitOn ",").mapM fun it => if it = "-" then some [] else (it.splitOn ".").mapM parseSrv).map some
+
+def showGwOut : Option (List (List (Nat × Int))) → String
   | none => "none"
   | some per => if per.isEmpty then "-" else
-    ",".intercalate (per.map fun ws => if ws.isEmpty then "-" else ".".intercalate (ws.map toString))
+    ",".intercalate (per.map fun ws => if ws.isEmpty then "-" else
+      ".".intercalate ((srvSort ws).map fun s => toString s.1 ++ "=" ++ toString s.2))
 
 def unesc (s : String) : String := s.replace "%20" " "
 
@@ -41,14 +70,31 @@ def parseLabels (s : String) : Option (List (String × String)) :=
     -- a pod's labels are a map: a key occurs once
     if (kvs.map (·.1)).eraseDups.length = kvs.length then some kvs else none
 
-def parseBgEp (s : String) : Option BgEp :=
-  let (st, pod) := splitOn1 s ":"
-  if st ≠ "r" ∧ st ≠ "d" then none else
-  if pod = "n" ∨ pod = "m" then some ⟨st = "d", none⟩ else
-  (parseLabels pod).map fun ls => ⟨st = "d", some ls⟩
+/-- `<r|d>:<pod>[@<a>]`: the address id defaults to the position (1-based) -/
+def parseBgEp (pos : Nat) (s : String) : Option BgListed :=
+  let (st, rest) := splitOn1 s ":"
+  let (pod, adr) := splitOn1 rest "@"
+  if st ≠ "r" ∧ st ≠ "d" then none else do
+  let a ← if adr = "" then some pos else adr.toNat?
+  if pod = "n" ∨ pod = "m" then some ⟨a, st = "d", none⟩ else
+  (parseLabels pod).map fun ls => ⟨a, st = "d", some ls⟩
+
+def bgSrvInsert (x : Nat × BgEp) : List (Nat × BgEp) → List (Nat × BgEp)
+  | [] => [x]
+  | y :: ys => if x.1 ≤ y.1 then x :: y :: ys else y :: bgSrvInsert x ys
+
+/-- the listed endpoints of the case line -/
+def parseBgListed (eps : String) : Option (List BgListed) :=
+  if eps = "" ∨ eps = "-" then some [] else
+  let toks := eps.splitOn ","
+  (toks.zip (List.range toks.length)).mapM fun p => parseBgEp (p.2 + 1) p.1
+
+/-- the servers of the backend, one per address (`bgAcquire`), in address order -/
+def bgServers (ls : List BgListed) : List BgEp :=
+  ((bgAcquire ls).foldr bgSrvInsert []).map (·.2)
 
 def parseBgIn (mode initial ann eps : String) : Option BgIn := do
-  let eps ← parseList parseBgEp eps
+  let eps := bgServers (← parseBgListed eps)
   let ann ← if ann = "-" then some none
     else if ann.startsWith "b:" ∨ ann.startsWith "d:" ∨ ann.startsWith "e:" then some (some (unesc (ann.drop 2).toString))
     else none
@@ -59,7 +105,8 @@ def parseBgIn (mode initial ann eps : String) : Option BgIn := do
 def showInts (l : List Int) : String := if l.isEmpty then "-" else ",".intercalate (l.map toString)
 
 /-- `rebalance <initial> <W:L,...>` with impl output `<w,...>` (ints);
-`gw <kind> <refs>` and `bg <mode> <initial> <ann> <eps>`: the callers -/
+`gw <kind> <refs>` and `bg <mode> <initial> <ann> <eps>`: the callers (`gw`: the servers are compared
+as multisets per backendRef; `bg`: one weight per SERVER = distinct address, in address order) -/
 def handle (args : List String) (impl : String) : Verdict :=
   match args with
   | ["rebalance", ini, cs] =>
@@ -76,11 +123,11 @@ def handle (args : List String) (impl : String) : Verdict :=
       let m := clampWeight w
       { model := toString m, agree := m = o, oracle := if 0 ≤ o ∧ o ≤ 256 then none else some "range" }
     | _, _ => bad "parse"
-  | ["gw", _, rs] =>
-    match parseList parseGwRef rs, parseGwOut impl with
+  | ["gw", kind, rs] =>
+    match parseList (parseGwRef (kind.endsWith "s")) rs, parseGwOut impl with
     | some refs, some obs =>
       let m := gwRun refs
-      { model := showGwOut m, agree := m = obs, oracle := gwOracle refs obs,
+      { model := showGwOut m, agree := m.map (·.map srvSort) = obs.map (·.map srvSort), oracle := gwOracle refs obs,
         trivial := match m with | none => true | some per => per.all (·.isEmpty) }
     | _, _ => if impl = "PANIC" then { model := "-", agree := false, oracle := some "panic-gw" } else bad "parse"
   | ["bg", mode, ini, ann, eps] =>
